@@ -62,6 +62,28 @@ def define(spec, seed=0, local=False):
     return dc
 
 
+def define_family(spec, seed=0):
+    """spec['family'] = list of member specs: one module, the top class of every member defined under the same
+    name one after the other. Returns one DeclCtx per member (they share the world)."""
+    Ps = [build_decl(m) for m in spec['family']]
+    src = ir.family_src(Ps)
+    w = mk.World()
+    try:
+        mod = w.module(src)
+    except BaseException:
+        w.dispose()
+        raise
+    dcs = []
+    for i, (m, P) in enumerate(zip(spec['family'], Ps)):
+        setattr(mod, P['name'], getattr(mod, '%s__%d' % (P['name'], i)))
+        dc = DeclCtx(dict(m, family_of=spec['family'], member=i), P, w, mod, seed)
+        dc.K = getattr(mod, '%s__%d' % (P['name'], i))
+        dc.src = src + '\n# class under test: %s__%d' % (P['name'], i)
+        dc.family_index = i
+        dcs.append(dc)
+    return dcs
+
+
 def ref_parse(P, raw, start=0):
     """('ok', Ok) | ('fail', Fail) | ('oos', why)"""
     try:
@@ -146,6 +168,21 @@ def _shard(shard, nshards, payload):
         if spec.get('embed') or spec.get('described'):
             mod.check_embed(st)
             continue
+        if spec.get('family'):
+            try:
+                dcs = define_family(spec, common.SEED)
+            except Exception as e:
+                st.violate('definition-fails', 'defining the family %r raised %r' % (spec, e), {'spec': spec})
+                continue
+            try:
+                for dc in dcs:
+                    st.inc('programs')
+                    # helpers look classes up by name in the module: bind the shared name to this member's class
+                    setattr(dc.mod, dc.P['name'], dc.K)
+                    mod.check_decl(dc, st, tier)
+            finally:
+                dcs[0].world.dispose()
+            continue
         try:
             expect_bad = False
             try:
@@ -210,7 +247,18 @@ def replay_decl(module, case, tier='thorough'):
     """re-runs the oracle of `module` on the declaration of a recorded case; returns violations whose
     signature equals the recorded one first"""
     st = Stats()
-    dc = define(case['spec'], common.SEED)
+    spec = case['spec']
+    if spec.get('family_of'):
+        dcs = define_family({'family': spec['family_of']}, common.SEED)
+        try:
+            for dc in dcs[:spec['member'] + 1]:
+                if dc.family_index == spec['member']:
+                    setattr(dc.mod, dc.P['name'], dc.K)
+                    module.check_decl(dc, st, tier, only=case)
+        finally:
+            dcs[0].world.dispose()
+        return st.violations
+    dc = define(spec, common.SEED)
     try:
         module.check_decl(dc, st, tier, only=case)
     finally:
